@@ -30,7 +30,7 @@ _C02_MUST = (
     ["adj_in_comparisons", "loc_rib_comparisons", "counter_comparisons", "gettable_comparisons", "lookup_comparisons", "watcher_comparisons",
      "watcher_events", "ev_delete-peer", "ev_re-add-peer", "ev_flap", "ev_reestablish", "ev_burst"] +
     # unit "lin"
-    ["histories_linearizable", "cases_with_overlapping_writes_on_one_prefix", "ops_overlapping_another", "read_write_overlaps_same_prefix",
+    ["histories_linearizable", "joint_histories_checked", "cases_with_overlapping_writes_on_one_prefix", "ops_overlapping_another", "read_write_overlaps_same_prefix",
      "write_overlap_add/add", "write_overlap_add/del-uuid", "op_add", "op_del-uuid", "op_del-path", "op_del-all", "op_list", "op_list-all",
      "del_uuid_ok", "del_uuid_error_no_such_uuid", "list_value", "list_absent", "cases_with_speakers", "peer_paths_seen_in_list_replies",
      "cases_mixed_family"]
